@@ -58,15 +58,23 @@ def load_pair(prefix, enc):
     return priv, pub, pb, ub
 
 
+def _files(d):
+    return sorted(os.path.join(r, f) for r, _, fs in os.walk(d) for f in fs)
+
+
 def judge_keys(case, acc, ctx):
     """case: {runs: [{type, enc, priv, pub}...]} executed into the same prefix."""
     d = ctx.tmpdir("keys")
     try:
-        prefix = os.path.join(d, "my key")
+        # prefixes with a space, with dots in the last component (release-1.2) and in a directory name
+        pname = case.get("prefix", "my key")
+        prefix = os.path.join(d, pname)
+        os.makedirs(os.path.dirname(prefix), exist_ok=True)
         for i, r in enumerate(case["runs"]):
-            for f in os.listdir(d) if not case.get("reuse", True) else []:
-                os.unlink(os.path.join(d, f))
-            before = {f: open(os.path.join(d, f), "rb").read() for f in os.listdir(d)}
+            if not case.get("reuse", True):
+                for f in _files(d):
+                    os.unlink(f)
+            before = {f: open(f, "rb").read() for f in _files(d)}
             raised = None
             try:
                 if case.get("route") == "cli":
@@ -83,16 +91,16 @@ def judge_keys(case, acc, ctx):
                 raised = e
             default = r["priv"] == "pkcs8" and r["pub"] == "default"
             acc.case(nt_key=("keys", r["type"], r["enc"], r["priv"], r["pub"], i) if (not default or i > 0) else None,
-                     classes=["keys", f"type:{r['type']}", f"enc:{r['enc']}", "default-formats" if default else "other-formats", f"run:{i}", "accepted" if raised is None else "reported-unsupported"],
+                     classes=["keys", f"type:{r['type']}", f"enc:{r['enc']}", "prefix:dotted" if "." in os.path.basename(prefix) else "prefix:plain", "default-formats" if default else "other-formats", f"run:{i}", "accepted" if raised is None else "reported-unsupported"],
                      sample=case, sample_key=f"keys/{r['type']}/{raised is None}")
-            after = {f: open(os.path.join(d, f), "rb").read() for f in os.listdir(d) if not f.endswith(".log")}
+            after = {f: open(f, "rb").read() for f in _files(d) if not f.endswith(".log")}
             if raised is not None:
                 if default:
                     raise Violation(f"keys --type {r['type']} --encoding {r['enc']} with default formats failed: {type(raised).__name__}: {str(raised)[:200]}", "a key pair", bucket="default-failed")
                 # the property says "reports ... as an error": any exception / non-zero exit counts; the type is recorded, not judged
                 acc.note(f"unsupported_reported_as:{type(raised).__name__}")
                 if {k: v for k, v in after.items()} != before:
-                    raise Violation(f"unsupported combination {r} was refused but key files were written/changed: {sorted(set(after) ^ set(before)) or 'content changed'}", "no key files", bucket="files-on-error")
+                    raise Violation(f"unsupported combination {r} was refused but key files were written/changed: {[os.path.relpath(x, d) for x in sorted(set(after) ^ set(before))] or 'content changed'}", "no key files", bucket="files-on-error")
                 continue
             try:
                 priv, pub, pb, ub = load_pair(prefix, r["enc"])
@@ -188,6 +196,22 @@ def judge_convert(case, acc, ctx, clang=False):
             with open(ftr, "w") as fh:
                 fh.write((f"_Static_assert(sizeof({o['array_name']}) == {len(want)}, \"size\");\n" if clang else "") + ("/* end 0x33 */\n" if o.get("footer") else ""))
         out = os.path.join(d, "key.c")
+        if case.get("prior_scalar"):
+            # the output path already holds the conversion of ANOTHER key (created earlier, so all time stamps are in order)
+            from suit_generator import cmd_convert as _cc
+
+            pk = ec.derive_private_key(case["prior_scalar"], CURVES[kt]()) if kt in CURVES else ed25519.Ed25519PrivateKey.from_private_bytes(case["prior_scalar"].to_bytes(32, "big"))
+            ppem = os.path.join(d, "other_key.pem")
+            with open(ppem, "wb") as fh:
+                fh.write(pk.private_bytes(serialization.Encoding.PEM, serialization.PrivateFormat.PKCS8, serialization.NoEncryption()))
+            os.utime(ppem, (1_600_000_000, 1_600_000_000))
+            os.utime(pem, (1_600_000_100, 1_600_000_100))  # both key files are older than the C file that is about to be written
+            try:
+                _cc.main(input_file=ppem, output_file=out, array_type=o["array_type"], array_name=o["array_name"], length_type=o["length_type"], length_name=o["length_name"],
+                         columns_count=o["columns"], header_file="", footer_file="", indentation_count=o["indent"], indentation_tab=o["tab"], no_length=o["no_length"], no_const=o["no_const"])
+                acc.note("existing-output-overwritten")
+            except Exception:
+                pass
         kw = dict(input_file=pem, output_file=out, array_type=o["array_type"], array_name=o["array_name"], length_type=o["length_type"], length_name=o["length_name"],
                   columns_count=o["columns"], header_file=hdr, footer_file=ftr, indentation_count=o["indent"], indentation_tab=o["tab"], no_length=o["no_length"], no_const=o["no_const"])
         raised = None
@@ -290,8 +314,8 @@ def run_shard(ctx, spec):
     kind = spec["kind"]
     combos = [{"type": t, "enc": e, "priv": p, "pub": u} for t, e, p, u in itertools.product(TYPES, ["pem", "der"], ["pkcs1", "pkcs8"], ["default", "pkcs1"])]
     if kind == "keys-product":
-        for c in combos:
-            _try(acc, "keys", {"runs": [c], "reuse": False}, judge_keys, ctx)
+        for i, c in enumerate(combos):
+            _try(acc, "keys", {"runs": [c], "reuse": False, "prefix": ["my key", "release-1.2", "v1.0/key.prod", "k"][i % 4]}, judge_keys, ctx)
         acc.info["keys_product_exhaustive"] = True
     elif kind == "keys-sequences":
         # second run into a prefix that already holds a pair: larger-then-smaller and smaller-then-larger
@@ -320,7 +344,8 @@ def run_shard(ctx, spec):
                 _try(acc, "convert", {"type": t, "scalar": k, "opts": default_options()}, judge_convert, ctx, clang=True)
     else:
         route = spec["route"]
-        strat = st.fixed_dictionaries({"type": st.sampled_from(TYPES), "scalar": st.one_of(st.integers(1, 5000), st.integers(1, 2**250)), "opts": opts_s(), "pkcs8": st.booleans()}).map(
+        strat = st.fixed_dictionaries({"type": st.sampled_from(TYPES), "scalar": st.one_of(st.integers(1, 5000), st.integers(1, 2**250)), "opts": opts_s(), "pkcs8": st.booleans(),
+                                       "prior_scalar": st.sampled_from([None, None, 77, 123456789])}).map(
             lambda c: {**c, "route": route})
         run_given(ctx, acc, "convert", strat, lambda c, a: judge_convert(c, a, ctx), seed=ctx.seed * 1000 + spec["i"], n=spec["n"])
     return acc
@@ -338,6 +363,6 @@ def replay(ctx, check, case):
 def finalize(ctx, m, ev):
     c = m["counters"]
     ev["coverage"]["exhaustive_scope"] = "keys: 40-combination product and all ordered type pairs per encoding enumerated; convert: constructed boundary keys + sampled layouts"
-    for n in ["accepted", "reported-unsupported", "run:1", "coord:lead00", "coord:lead04", "coord:tail00", "type:ed448", "custom-layout"]:
+    for n in ["accepted", "reported-unsupported", "run:1", "prefix:dotted", "existing-output-overwritten", "coord:lead00", "coord:lead04", "coord:tail00", "type:ed448", "custom-layout"]:
         if not c.get(n):
             raise boot.HarnessError(f"interesting class {n} is empty")
